@@ -300,6 +300,18 @@ fn dump_reader<R: Read + Seek>(r: &mut Mp4Reader<R>, c: &Value, out: &mut Value)
             js.push(json!(["udta", cls(&guard(|| udta.to_json())), cls(&guard(|| udta.summary()))]));
             if let Some(ref meta) = udta.meta {
                 js.push(json!(["meta", cls(&guard(|| meta.to_json())), cls(&guard(|| meta.summary()))]));
+                // the item list, every item and every data box on their own (their to_json / summary are public too)
+                if let MetaBox::Mdir { ilst: Some(ref ilst) } = meta {
+                    js.push(json!(["ilst", cls(&guard(|| Mp4Box::to_json(ilst))), cls(&guard(|| Mp4Box::summary(ilst)))]));
+                    let mut oks = vec![];
+                    for (_k, item) in ilst.items.iter() {
+                        oks.push(cls(&guard(|| Mp4Box::to_json(&item.data))));
+                        oks.push(cls(&guard(|| Mp4Box::summary(&item.data))));
+                    }
+                    oks.sort();
+                    oks.dedup();
+                    js.push(json!(["ilst.items", oks.join("+"), "-"]));
+                }
             }
         }
         if let Some(ref meta) = r.moov.meta {
@@ -741,7 +753,9 @@ fn cmd_mux(c: &Value) -> Value {
                 statuses.push(json!(cls(&r)));
             }
         }
-        if !stop {
+        // "abandon": the writer is given up without write_end (samples may still be buffered in its track writers)
+        let abandon = c.get("abandon").and_then(|x| x.as_bool()).unwrap_or(false);
+        if !stop && !abandon {
             let r = guard(|| w.write_end());
             ended = cls(&r);
         } else {
